@@ -215,7 +215,6 @@ func (r *relay) liveConns() int {
 
 // cut closes every connection through the relay (both sides); the listener stays.
 func (r *relay) cut() {
-	relayCuts.Add(1)
 	r.mu.Lock()
 	var cs []*rconn
 	for rc := range r.conns {
